@@ -120,6 +120,27 @@ def case_fault_reopen(ctx, present, request, faulty, fault):
     w.close()
 
 
+def case_reopen_mode(ctx, allow_missing, parallel):
+    """the missing-file mode of a cache survives reopening the directory (it is read back from the stored
+    configuration): a not-found URI requested AFTER the restart is omitted in tolerant mode and raises in strict
+    mode - for both download modes, so that no other stored flag can stand in for it"""
+    w, sizes, times, mx = setup(ctx, [])
+    w.order = [1, 0] if parallel else None
+    cache = w.make_cache(mx, parallel, allow_missing)
+    _request(ctx, cache, [B], "first")
+    cache2 = ctx.noraise("D-REOPEN.raise", w.make_cache, mx, parallel, allow_missing, True)
+    w.set_remote(A, w.remote_size[A], Fault.NOTFOUND)
+    out, ex = _request(ctx, cache2, [A, B], "after-reopen")
+    ctx.reach("D-REOPEN.mode")
+    if allow_missing:
+        ctx.check(ex is None, "D-REOPEN.mode", info=f"tolerant mode lost after reopening: {ex!r}" if ex else None)
+        if ex is None:
+            ctx.check(list(out) == [w.path_of(B)], "D-REOPEN.mode", info="the missing URI is omitted, the other returned")
+    else:
+        ctx.check(ex is not None, "D-REOPEN.mode", info="strict mode lost after reopening: a missing URI must raise")
+    w.close()
+
+
 def case_validation(ctx, present_valid, redownload_fault, reopen=False):
     """validate directive rejects the cached (stale) copy of A: it is re-fetched, never served - neither later in the
     session nor after reopening the directory - also when the re-download fails"""
@@ -208,6 +229,10 @@ def cases(tier):
             for f in (Fault.ERROR_PARTIAL, Fault.ERROR_BEFORE, Fault.NOTFOUND):
                 add("case_fault_reopen", f"reopen_{f}_{tagof(present)}__{tagof(req)}", present=list(present),
                     request=req, faulty=A, fault=f)
+    for am in (True, False):
+        for par in (False, True):
+            add("case_reopen_mode", f"reopen_mode_{'tolerant' if am else 'strict'}_{'parallel' if par else 'sequential'}",
+                allow_missing=am, parallel=par)
     for pv in (True, False):
         for f in (Fault.OK, Fault.NOTFOUND, Fault.ERROR_BEFORE, Fault.ERROR_PARTIAL):
             for ro in (False, True):
